@@ -32,7 +32,7 @@ import mtest_gen as g
 
 U = Unit("C50_revert")
 EEPS, SEPS = 1e-12, 1e-3
-CBAND = param("cband", 100.)
+CBAND = param("cband", 1.)
 HISTORY = ["VNorton", "VPlasticity", "VKinematic"]
 
 LIBS = {}
